@@ -24,6 +24,8 @@ let cls_of s : string pres =
   | [_; "eof"; _] -> PEOF
   | _ -> POther
 
+let tout_of cls (v : 'a) : 'a tout = match cls with "ok" -> TOk v | "source" -> TSource | _ -> TBad
+
 let show (objs : string cobj list) (with_xref : bool) : string =
   let parts = Stdlib.List.map (fun o ->
       Printf.sprintf "%s.%s@%d:%s" (string_of_n o.co_obj.fo_num) (string_of_n o.co_obj.fo_gen) (int_of_nat o.co_obj.fo_start)
@@ -39,9 +41,16 @@ let show (objs : string cobj list) (with_xref : bool) : string =
     base ^ " xref[" ^ Stdlib.String.concat " " xs ^ "]"
   end
 
-let result (ms : (Datatypes.nat * marker) list option) pc with_xref : string =
+let result (ms : (Datatypes.nat * marker) list option) pc with_xref px pt : string =
   match seq_scan ms pc with
-  | Res.Ok objs -> show objs with_xref
+  | Res.Ok objs ->
+    (* getTrailer on the located sections *)
+    let secs = match ms with Some l -> locate l | None -> [] in
+    let tr = match scan_trailer px pt secs with
+      | Res.Ok d -> d
+      | Res.Err (Res.IO _) -> "source"
+      | Res.Err _ -> "none" in
+    show objs with_xref ^ " trailer[" ^ tr ^ "]"
   | Res.Err Res.Malformed -> "fail-malformed"
   | Res.Err Res.EOF -> "fail-eof"
   | Res.Err _ -> "fail-other"
@@ -60,20 +69,44 @@ let () =
       (* does the hypothesis of the theorems hold of this file? *)
       incr nfiles;
       if WindowTheorems.tameb !file then incr ntame
-    | id :: "C" :: cut :: x :: _k :: pcs ->
+    | id :: "C" :: cut :: x :: k :: rest ->
       let data = prefix (int_of_string cut) in
       let table = Hashtbl.create 16 in
+      let rec take n l acc = if n = 0 then (Stdlib.List.rev acc, l) else
+          match l with y :: r -> take (n - 1) r (y :: acc) | [] -> (Stdlib.List.rev acc, []) in
+      let (pcs, rest) = take (int_of_string k) rest [] in
       Stdlib.List.iter (fun s ->
           match Stdlib.String.split_on_char ':' s with
           | off :: _ -> Hashtbl.replace table (int_of_string off) (cls_of s)
           | [] -> ()) pcs;
+      (* X <k> off:cls:root:dig   T <k> pos:cls:dig *)
+      let xt = Hashtbl.create 4 and tt = Hashtbl.create 4 in
+      (match rest with
+       | "X" :: nx :: rest ->
+         let (xl, rest) = take (int_of_string nx) rest [] in
+         Stdlib.List.iter (fun s ->
+             match Stdlib.String.split_on_char ':' s with
+             | [off; cls; root; dig] ->
+               Hashtbl.replace xt (int_of_string off) (tout_of cls (if root = "1" then Some dig else None))
+             | _ -> ()) xl;
+         (match rest with
+          | "T" :: nt :: rest ->
+            let (tl, _) = take (int_of_string nt) rest [] in
+            Stdlib.List.iter (fun s ->
+                match Stdlib.String.split_on_char ':' s with
+                | [pos; cls; dig] -> Hashtbl.replace tt (int_of_string pos) (tout_of cls dig)
+                | _ -> ()) tl
+          | _ -> ())
+       | _ -> ());
+      let px (off : Datatypes.nat) = Hashtbl.find_opt xt (int_of_nat off) in
+      let pt (pos : Datatypes.nat) = match Hashtbl.find_opt tt (int_of_nat pos) with Some r -> r | None -> TBad in
       (* a candidate the implementation did not locate has no recorded outcome *)
       let pc (off : Datatypes.nat) : string pres =
         match Hashtbl.find_opt table (int_of_nat off) with Some r -> r | None -> POk "unlocated-by-impl" in
       let with_xref = (x = "x") in
-      let w = result (scan_windows data) pc with_xref in
+      let w = result (scan_windows data) pc with_xref px pt in
       Printf.printf "%s %s\n" id w;
-      let i = result (scan_ideal data) pc with_xref in
+      let i = result (scan_ideal data) pc with_xref px pt in
       if i <> w then begin
         incr ideal_diff;
         if !ideal_diff <= 50 then Printf.fprintf (Lazy.force ideal_out) "%s\n  windows: %s\n  ideal  : %s\n" id w i
